@@ -25,3 +25,29 @@ Theorem C17_checked : forall al kids s,
   exists kids', add_text_checked al kids s = Ok kids' /\ extract kids' = extract kids ++ s.
 Proof. exact teletype_checked. Qed.
 Print Assumptions C17_checked.
+
+(* after the document has been saved and loaded: what a parser returns for the children
+   (`reparse`: CDATA as character data, neighbouring character data as one node, empty
+   text nodes gone) reads the same as the children themselves, whatever they are ... *)
+Theorem C17_reparse_extract : forall ns,
+  forallb no_cdata_node ns = true -> extract (reparse ns) = extract ns.
+Proof. exact teletype_reparse_extract. Qed.
+Print Assumptions C17_reparse_extract.
+
+(* ... the nodes of one call come back exactly as they were inserted ... *)
+Theorem C17_reparse_fixpoint : forall s : str, reparse (encode s) = encode s.
+Proof. exact teletype_reparse_fixpoint. Qed.
+Print Assumptions C17_reparse_fixpoint.
+
+(* ... and the string is recovered from the reloaded element, after whatever children it had *)
+Theorem C17_saved : forall (kids : list tnode) (s : str),
+  forallb no_cdata_node kids = true ->
+  extract (reparse (add_text_to_element kids s)) = extract kids ++ s.
+Proof. exact teletype_saved_roundtrip. Qed.
+Print Assumptions C17_saved.
+
+(* the premise is satisfiable, and the merge does happen: a text node in front of the call's own *)
+Example C17_saved_example :
+  reparse (add_text_to_element [TText [97]; TOther [TText []; TText [98]]] [99; 32; 32; 100])
+  = [TText [97]; TOther [TText [98]]; TText [99; 32]; TS (Some 1%nat); TText [100]].
+Proof. vm_compute. reflexivity. Qed.
